@@ -206,6 +206,94 @@ Section Step.
   Qed.
 End Step.
 
+(* ---- kubectl apply as ApplyTask runs it: one server-side PATCH, one client-side apply, or -
+   for an APIService under server-side apply whose PATCH died with a stream error - the failed
+   PATCH followed by the fallback (client-side apply; a second dry-run PATCH under server dry-run).
+   Every preorder on run states that the two building blocks respect is respected by the whole. *)
+Section KubectlApply.
+  Variable sc : scenario.
+  Variable l : lobj.
+
+  Definition ssa_dflag : bool := match o_dry (sc_opts sc) with DServer => true | _ => false end.
+
+  (* the three shapes of kubectl_apply *)
+  Lemma kubectl_apply_cases s :
+    (ssa_mode sc = false /\ kubectl_apply sc s l = csa_apply sc s l)
+    \/ (ssa_mode sc = true /\
+        kubectl_apply sc s l = (fst (ssa_patch sc s l 0), ssa_result (snd (ssa_patch sc s l 0))) /\
+        (snd (ssa_patch sc s l 0) = SsaStream -> (o_ssa (sc_opts sc) && is_apisvc sc (l_id l)) = false))
+    \/ (ssa_mode sc = true /\ snd (ssa_patch sc s l 0) = SsaStream /\
+        o_ssa (sc_opts sc) = true /\ is_apisvc sc (l_id l) = true /\
+        kubectl_apply sc s l = apisvc_fallback sc (fst (ssa_patch sc s l 0)) l).
+  Proof.
+    unfold kubectl_apply. destruct (ssa_mode sc); [|left; split; reflexivity].
+    right. destruct (ssa_patch sc s l 0) as [s1 r]. cbn [fst snd].
+    destruct r as [u| |].
+    - left. split; [reflexivity|]. split; [reflexivity|discriminate].
+    - left. split; [reflexivity|]. split; [reflexivity|discriminate].
+    - destruct (o_ssa (sc_opts sc)) eqn:E1; cbn [andb].
+      + destruct (is_apisvc sc (l_id l)) eqn:E2.
+        * right. repeat split; reflexivity.
+        * left. split; [reflexivity|]. split; [reflexivity|reflexivity].
+      + left. split; [reflexivity|]. split; [reflexivity|reflexivity].
+  Qed.
+
+  (* a PATCH that is not accepted: logged as rejected on the unchanged cluster *)
+  Lemma ssa_patch_rejected s n : ssa_result (snd (ssa_patch sc s l n)) = None ->
+    fst (ssa_patch sc s l n) = log_req (maybe_cancel sc s (l_id l)) (RPatch (l_id l) true ssa_dflag) false.
+  Proof.
+    unfold ssa_patch, ssa_dflag. cbv zeta.
+    destruct (faulted sc (FStream (l_id l) n)); [reflexivity|].
+    destruct (faulted sc (FApply (l_id l))); [reflexivity|].
+    destruct (find_obj _ _); destruct (match o_dry (sc_opts sc) with DServer => true | _ => false end); cbn; discriminate.
+  Qed.
+
+  Lemma ssa_patch_stream s n : snd (ssa_patch sc s l n) = SsaStream ->
+    fst (ssa_patch sc s l n) = log_req (maybe_cancel sc s (l_id l)) (RPatch (l_id l) true ssa_dflag) false.
+  Proof.
+    intros E. apply ssa_patch_rejected. rewrite E. reflexivity.
+  Qed.
+
+  (* under server dry-run the fallback is a second apply PATCH; otherwise a client-side apply *)
+  Lemma apisvc_fallback_cases s :
+    (o_dry (sc_opts sc) = DServer /\
+     apisvc_fallback sc s l = (fst (ssa_patch sc s l 1), ssa_result (snd (ssa_patch sc s l 1))))
+    \/ (o_dry (sc_opts sc) <> DServer /\ apisvc_fallback sc s l = csa_apply sc s l).
+  Proof.
+    unfold apisvc_fallback. destruct (o_dry (sc_opts sc)).
+    - right. split; [discriminate|reflexivity].
+    - right. split; [discriminate|reflexivity].
+    - left. split; [reflexivity|]. destruct (ssa_patch sc s l 1); reflexivity.
+  Qed.
+
+  Variable R : rst -> rst -> Prop.
+  Hypothesis R_trans : forall a b c, R a b -> R b c -> R a c.
+  Hypothesis R_ssa : forall s n, R s (fst (ssa_patch sc s l n)).
+  Hypothesis R_csa : forall s, R s (fst (csa_apply sc s l)).
+
+  Lemma apisvc_fallback_step s : R s (fst (apisvc_fallback sc s l)).
+  Proof.
+    destruct (apisvc_fallback_cases s) as [[_ ->]|[_ ->]]; [apply R_ssa|apply R_csa].
+  Qed.
+
+  Lemma kubectl_apply_step s : R s (fst (kubectl_apply sc s l)).
+  Proof.
+    destruct (kubectl_apply_cases s) as [[_ ->]|[[_ [-> _]]|[_ [_ [_ [_ ->]]]]]].
+    - apply R_csa.
+    - apply R_ssa.
+    - eapply R_trans; [apply (R_ssa s 0)|apply apisvc_fallback_step].
+  Qed.
+End KubectlApply.
+
+(* a component of the run state that neither building block writes is not written by kubectl_apply *)
+Lemma kubectl_apply_keeps {A} sc l (f : rst -> A) :
+  (forall s n, f (fst (ssa_patch sc s l n)) = f s) -> (forall s, f (fst (csa_apply sc s l)) = f s) ->
+  forall s, f (fst (kubectl_apply sc s l)) = f s.
+Proof.
+  intros H1 H2 s.
+  apply (kubectl_apply_step sc l (fun a b => f b = f a)); [intros a b c E1 E2; congruence|exact H1|exact H2].
+Qed.
+
 (* the mapper reset at the end of a wait task touches nothing but r_known *)
 Section WaitReset.
   Variable sc : scenario.
